@@ -53,7 +53,8 @@ def _abstract_zone_state(rng):
     sensor = rng.random() < 0.6
     return {"power": rng.choice(["off", "on", "turbo"]), "method": rng.choice(["damper", "temperature"]), "percent": rng.randint(0, 20) * 5,
             "battery_low": rng.random() < 0.2, "setpoint": rng.randint(14, 32) if sensor else None, "sensor": sensor,
-            "temp": (rng.randint(400, 900) - 500) / 10 if sensor else None, "spill": rng.random() < 0.2}
+            # a fitted sensor whose reading is unavailable (dropped out) is a state both protocols can express
+            "temp": (rng.randint(400, 900) - 500) / 10 if sensor and rng.random() < 0.85 else None, "spill": rng.random() < 0.2}
 
 
 def _to4_zone(z):
@@ -201,12 +202,14 @@ def _abstract_cmd(gen: int, r: dict):
     return (k,)
 
 
-def _norm_snap(snap: dict, method_touched=()) -> dict:
+def _norm_snap(snap: dict, method_touched=(), timers_masked=()) -> dict:
     out = {"top": {k: snap[k] for k in ("initialised", "airtouch_id", "serial", "name", "host", "update_available", "console_versions")}, "acs": {}, "zones": {}}
     for ac, a in snap["acs"].items():
         d = {k: v for k, v in a.items() if k not in MASK_AC}
         for k in ("supported_modes", "supported_fan_speeds", "zones"):
             d[k] = sorted(d[k]) if isinstance(d.get(k), list) else d.get(k)
+        if ac in timers_masked or str(ac) in timers_masked:
+            d = {k: v for k, v in d.items() if "timer" not in k}
         out["acs"][ac] = d
     for z, zz in snap["zones"].items():
         d = {k: v for k, v in zz.items() if k not in MASK_ZONE}
@@ -254,13 +257,30 @@ def execute(sc: dict) -> dict:
         return res
     if len(sc["s4"]["installation"]["acs"]) > 1:
         probes["c19.multi_ac"] = 1
+    # An AT4 timer command that leaves BOTH timers of the named AC enabled at 00:00 is an all-zero record, which the
+    # reference console reads as "AC not named" (spec/undocumented_messages.md): such a command is not expressible in the
+    # AT4 wire format, so the timers of that AC leave the comparison from that call on (the command's meaning is still compared).
+    zero_t = {"disabled": False, "hour": 0, "minute": 0}
+    ambiguous = []
+    api4 = [c for c in w4.calls if c["op"] == "user.api" and c["seq_call"] is not None]
+    for n, c in enumerate(api4):
+        if c["step"]["call"] in ("set_quick_timer", "clear_quick_timer") and c["exc"] is None:
+            ac_named = c["step"]["target"][1]
+            hi_seq = api4[n + 1]["seq_call"] if n + 1 < len(api4) else 10**12
+            for f in common.client_frames(w4):
+                r = f["reading"]
+                if c["seq_call"] < f["seq"] < hi_seq and r["kind"] == "timer_control" and any(x["ac"] == ac_named and x["on"] == zero_t and x["off"] == zero_t for x in r["timers"]):
+                    ambiguous.append((c["step"]["at"], ac_named))
+                    probes["c19.at4_both_midnight_inexpressible"] = 1
+                    break
     # getters
     api_steps = sorted((st["at"], st) for st in sc["s5"]["timeline"] if st["op"] == "user.api")
     for (t4, _l4, s4), (t5, _l5, s5) in zip(w4.snapshots, w5.snapshots):
         probes["c19.snapshot_compared"] = 1
         # documented difference: AT4 set-point / damper calls also select the control method
         touched = {st["target"][1] for (at, st) in api_steps if at <= t4 and st["target"][0] == "zone" and st["call"] in ("set_target_temperature", "set_damper_percentage")}
-        d = _first_diff(_norm_snap(s4, touched), _norm_snap(s5, touched))
+        tmask = {ac for (at, ac) in ambiguous if at <= t4}
+        d = _first_diff(_norm_snap(s4, touched, tmask), _norm_snap(s5, touched, tmask))
         if d:
             V.append(viol("C19.getter_differs", {"t": t4, "where": d[0], "at4": repr(d[1])[:200], "at5": repr(d[2])[:200]}, attr=d[0].split("/")[-1]))
             break
